@@ -693,9 +693,11 @@ class SystemManager:
             else:
                 return
 
-        for sys in self.execution_queue:  # Simple execute cycle
+        for sys in list(self.execution_queue):  # Simple execute cycle over a snapshot of the queue
             if not self.model.is_running():
                 break
+            if self.systems.get(sys.id) is not sys:  # removed by a system that ran earlier in this timestep
+                continue
             if sys.start <= self.timestep <= sys.end and (sys.start - self.timestep) % sys.frequency == 0:
                 sys.execute()
         self.timestep += 1
